@@ -745,6 +745,7 @@ func rtValues() []*big.Int {
 }
 
 func run(c *fw.Ctx) {
+	c.ConcPart() // schedule companion (checks/c14/conc): a separate process, so nothing is hashed in this one yet
 	e := newEnv(c.Thorough())
 	var idx, done int64
 	// the running case number is skewed by idx/16 + idx/256 (still a partition of the cases over the
